@@ -12,7 +12,7 @@ macro_rules! varint_roundtrip {
     ($name:ident, $write:path, $length:path, $lenlen:path) => {
         #[kani::proof]
         #[kani::unwind(6)]
-        fn $name() {
+        pub fn $name() {
             let len: usize = kani::any();
             let mut buf = BytesMut::new();
             let r = $write(&mut buf, len);
